@@ -19,8 +19,8 @@ ASSUME = ["schedules are sampled, not enumerated: absence of a deadlock/race in 
 def run(tier):
     res = fw.Result("C06", tier)
     s = fw.seed()
-    exe_a = build.build_harness("thp_stress", "asan", ["thp_stress.c"])
-    exe_t = build.build_harness("thp_stress", "tsan", ["thp_stress.c"], extra_flags=["-DVF_NO_LEDGER"])
+    exe_a = build.build_harness("thp_stress", "asan", ["thp_stress.c"], extra_link=["-Wl,--wrap=pthread_create"])
+    exe_t = build.build_harness("thp_stress", "tsan", ["thp_stress.c"], extra_flags=["-DVF_NO_LEDGER"], extra_link=["-Wl,--wrap=pthread_create"])
     if tier == "quick":
         na, nt, per = 16, 16, 150
     else:
